@@ -465,417 +465,6 @@ end Cppcms.C03
 namespace Cppcms.C03
 open Cppcms
 
-/-! ### the devices, over a connection that accepts every write -/
-
-abbrev Log := List (Bytes × Bool)
-
-/-- a connection that records what it is given and never fails -/
-def logIf : ConnIf Log := { send := fun k bs eof => (k ++ [(bs, eof)], true), setHeaders := fun k _ => k }
-
-def Log.bytes (k : Log) : Bytes := (k.map (·.1)).flatten
-def Log.eofs (k : Log) : Nat := (k.filter (·.2)).length
-
-theorem Log.bytes_append (k : Log) (bs : Bytes) (e : Bool) : Log.bytes (k ++ [(bs, e)]) = Log.bytes k ++ bs := by
-  simp [Log.bytes]
-
-theorem Log.eofs_append (k : Log) (bs : Bytes) (e : Bool) : Log.eofs (k ++ [(bs, e)]) = Log.eofs k + (if e then 1 else 0) := by
-  cases e <;> simp [Log.eofs, List.filter_append]
-
-theorem nextSize_gt (n : Nat) : n < Gen.nextSize n := by
-  unfold Gen.nextSize; split <;> omega
-
-theorem growTo_ge_start : ∀ (fuel rs m : Nat), rs ≤ growTo fuel rs m := by
-  intro fuel
-  induction fuel with
-  | zero => intro rs m; simp [growTo]
-  | succ f ih =>
-    intro rs m
-    rw [growTo]
-    split
-    · have := ih (rs * 2) m; omega
-    · exact Nat.le_refl _
-
-theorem growTo_ge_min : ∀ (fuel rs m : Nat), 0 < rs → m ≤ rs + fuel → m ≤ growTo fuel rs m := by
-  intro fuel
-  induction fuel with
-  | zero => intro rs m _ h; simpa [growTo] using h
-  | succ f ih =>
-    intro rs m hp h
-    rw [growTo]
-    split
-    · exact ih (rs * 2) m (by omega) (by omega)
-    · omega
-
-/-- the part of the device state the conservation statement is about -/
-def Dev.Inv (d : Dev) (k : Log) (inp : Bytes) : Prop :=
-  d.dead = false ∧ d.rawMode = false ∧ d.pos ≤ d.vec.length ∧ Log.bytes k ++ d.vec.take d.pos = inp
-
-/-- `write` on the logging connection, not in raw mode -/
-theorem Dev.write_log (d : Dev) (k : Log) (out : List Bytes) (hd : d.dead = false) (hr : d.rawMode = false) :
-    d.write logIf k out = ({ d with eofSend := d.final && !d.eofSend }, k ++ [(out.flatten, d.final && !d.eofSend)], true) := by
-  unfold Dev.write
-  simp [hd, hr, logIf]
-
-theorem Dev.doSetp_inv (d : Dev) (k : Log) (hd : d.dead = false) (hr : d.rawMode = false) :
-    d.doSetp.Inv k (Log.bytes k) := by
-  refine ⟨hd, hr, Nat.zero_le _, ?_⟩
-  show Log.bytes k ++ (resize d.vec d.bufferSize).take 0 = Log.bytes k
-  simp
-
-/-- eof bookkeeping of one `write` -/
-def eofFlag (d : Dev) : Bool := d.final && !d.eofSend
-
-theorem Dev.basicOverflow_inv (d : Dev) (k : Log) (inp : Bytes) (c : Option UInt8) (h : d.Inv k inp) :
-    (d.basicOverflow logIf k c).1.Inv (d.basicOverflow logIf k c).2 (inp ++ c.toList) ∧
-    (d.basicOverflow logIf k c).2 = k ++ [(d.content ++ c.toList, eofFlag d)] ∧
-    (d.basicOverflow logIf k c).1.final = d.final ∧ (d.basicOverflow logIf k c).1.eofSend = eofFlag d := by
-  obtain ⟨hd, hr, hp, hi⟩ := h
-  unfold Dev.basicOverflow
-  rw [Dev.write_log _ _ _ hd hr]
-  simp only [if_true]
-  have key : ∀ bs : Bytes, ({ d with eofSend := d.final && !d.eofSend } : Dev).doSetp.Inv
-      (k ++ [(d.content ++ bs, d.final && !d.eofSend)]) (inp ++ bs) := by
-    intro bs
-    have := Dev.doSetp_inv { d with eofSend := d.final && !d.eofSend } (k ++ [(d.content ++ bs, d.final && !d.eofSend)]) hd hr
-    rw [Log.bytes_append, ← List.append_assoc] at this
-    unfold Dev.content at this
-    rw [hi] at this
-    exact this
-  cases c with
-  | none =>
-    simp only [List.flatten_cons, List.flatten_nil, List.append_nil, Option.toList_none]
-    have := key []
-    simp only [List.append_nil] at this
-    exact ⟨this, (by rt), (by rt), (by rt)⟩
-  | some c =>
-    simp only [List.flatten_cons, List.flatten_nil, List.append_nil, Option.toList_some]
-    exact ⟨key [c], (by rt), (by rt), (by rt)⟩
-
-theorem Dev.pokeBlock_inv (d : Dev) (k : Log) (inp s : Bytes) (h : d.Inv k inp) (hfit : d.pos + s.length ≤ d.vec.length) :
-    ({ d with vec := poke d.vec d.pos s, pos := d.pos + s.length } : Dev).Inv k (inp ++ s) := by
-  obtain ⟨hd, hr, hp, hi⟩ := h
-  refine ⟨hd, hr, ?_, ?_⟩
-  · show d.pos + s.length ≤ (poke d.vec d.pos s).length
-    rw [poke_length _ _ _ hfit]; exact hfit
-  · show Log.bytes k ++ (poke d.vec d.pos s).take (d.pos + s.length) = inp ++ s
-    rw [poke_take _ _ _ hfit, ← List.append_assoc, hi]
-
-theorem Dev.basicXsputn_inv (d : Dev) (k : Log) (inp s : Bytes) (h : d.Inv k inp) :
-    (d.basicXsputn logIf k s).1.Inv (d.basicXsputn logIf k s).2 (inp ++ s) ∧
-    (d.basicXsputn logIf k s).1.final = d.final ∧
-    (((d.basicXsputn logIf k s).2 = k ∧ (d.basicXsputn logIf k s).1.eofSend = d.eofSend) ∨
-     ((d.basicXsputn logIf k s).2 = k ++ [(d.content ++ s, eofFlag d)] ∧ (d.basicXsputn logIf k s).1.eofSend = eofFlag d)) := by
-  have h' := h
-  obtain ⟨hd, hr, hp, hi⟩ := h
-  unfold Dev.basicXsputn
-  by_cases hfit : s.length ≤ d.vec.length - d.pos
-  · simp only [hfit, if_true]
-    by_cases he : s.isEmpty = true
-    · have : s = [] := by simpa [List.isEmpty_iff] using he
-      subst this
-      simp only [List.isEmpty_nil, if_true, List.append_nil]
-      exact ⟨h', (by rt), Or.inl ⟨(by rt), (by rt)⟩⟩
-    · simp only [he, Bool.false_eq_true, if_false]
-      exact ⟨Dev.pokeBlock_inv d k inp s h' (by omega), (by rt), Or.inl ⟨(by rt), (by rt)⟩⟩
-  · simp only [hfit, if_false]
-    rw [Dev.write_log _ _ _ hd hr]
-    simp only [if_true, List.flatten_cons, List.flatten_nil, List.append_nil]
-    refine ⟨?_, (by rt), Or.inr ⟨(by rt), (by rt)⟩⟩
-    have := Dev.doSetp_inv { d with eofSend := d.final && !d.eofSend } (k ++ [(d.content ++ s, d.final && !d.eofSend)]) hd hr
-    rw [Log.bytes_append, ← List.append_assoc] at this
-    unfold Dev.content at this
-    rw [hi] at this
-    exact this
-
-theorem Dev.flush_inv (d : Dev) (k : Log) (inp : Bytes) (h : d.Inv k inp) :
-    (d.flush logIf k).1.Inv (d.flush logIf k).2.1 inp ∧ (d.flush logIf k).1.pos = 0 ∧
-    (d.flush logIf k).2.1 = k ++ [(d.content, eofFlag d)] ∧ (d.flush logIf k).2.2 = true ∧
-    (d.flush logIf k).1.final = d.final ∧ (d.flush logIf k).1.eofSend = eofFlag d ∧
-    (d.flush logIf k).1.vec = d.vec ∧ (d.flush logIf k).1.bufferSize = d.bufferSize ∧
-    (d.flush logIf k).1.isAsync = d.isAsync ∧ (d.flush logIf k).1.fullBuffering = d.fullBuffering := by
-  obtain ⟨hd, hr, hp, hi⟩ := h
-  unfold Dev.flush
-  rw [Dev.write_log _ _ _ hd hr]
-  simp only [List.flatten_cons, List.flatten_nil, List.append_nil]
-  refine ⟨⟨hd, hr, Nat.zero_le _, ?_⟩, (by rt), (by rt), (by rt), (by rt), (by rt), (by rt), (by rt), (by rt), (by rt)⟩
-  show Log.bytes (k ++ [(d.content, d.final && !d.eofSend)]) ++ d.vec.take 0 = inp
-  rw [Log.bytes_append]
-  unfold Dev.content
-  simp [hi]
-
-/-- what an operation may do to the log: nothing, or one more entry carrying the current eof flag -/
-def LogStep (d d' : Dev) (k k' : Log) : Prop :=
-  d'.final = d.final ∧ ((k' = k ∧ d'.eofSend = d.eofSend) ∨ (∃ bs, k' = k ++ [(bs, eofFlag d)] ∧ d'.eofSend = eofFlag d))
-
-theorem Dev.basicSetbuf_inv (d : Dev) (k : Log) (inp : Bytes) (size : Nat) (h : d.Inv k inp) :
-    (d.basicSetbuf logIf k size).1.Inv (d.basicSetbuf logIf k size).2 inp ∧ LogStep d (d.basicSetbuf logIf k size).1 k (d.basicSetbuf logIf k size).2 := by
-  have h' := h
-  obtain ⟨hd, hr, hp, hi⟩ := h
-  unfold Dev.basicSetbuf
-  simp only
-  by_cases hgt : d.pos > size
-  · simp only [hgt, if_true]
-    have hinv0 : ({ d with bufferSize := size } : Dev).Inv k inp := ⟨hd, hr, hp, hi⟩
-    have ⟨f1, f2, f3, f4, f5, f6, _⟩ := Dev.flush_inv { d with bufferSize := size } k inp hinv0
-    simp only [f4, if_true]
-    refine ⟨?_, f5, Or.inr ⟨_, f3, f6⟩⟩
-    obtain ⟨g1, g2, g3, g4⟩ := f1
-    refine ⟨g1, g2, Nat.zero_le _, ?_⟩
-    rw [f2] at g4
-    show Log.bytes _ ++ (resize _ _).take 0 = inp
-    simpa using g4
-  · simp only [hgt, if_false]
-    refine ⟨⟨hd, hr, ?_, ?_⟩, (by rt), Or.inl ⟨(by rt), (by rt)⟩⟩
-    · show d.pos ≤ (resize d.vec size).length
-      rw [resize_length]; omega
-    · show Log.bytes k ++ (resize d.vec size).take d.pos = inp
-      rw [resize_take _ _ _ hp (by omega)]; exact hi
-
-theorem Dev.setbuf_inv (d : Dev) (k : Log) (inp : Bytes) (size : Nat) (h : d.Inv k inp) :
-    (d.setbuf logIf k size).1.Inv (d.setbuf logIf k size).2 inp ∧ LogStep d (d.setbuf logIf k size).1 k (d.setbuf logIf k size).2 := by
-  unfold Dev.setbuf
-  by_cases hm : (d.isAsync && d.fullBuffering) = true
-  · simp only [hm, if_true]
-    obtain ⟨hd, hr, hp, hi⟩ := h
-    refine ⟨⟨hd, hr, ?_, ?_⟩, (by rt), Or.inl ⟨(by rt), (by rt)⟩⟩
-    · show d.pos ≤ (resize d.vec (if d.pos > size then d.pos else size)).length
-      rw [resize_length]; split <;> omega
-    · show Log.bytes k ++ (resize d.vec (if d.pos > size then d.pos else size)).take d.pos = inp
-      rw [resize_take _ _ _ hp (by split <;> omega)]; exact hi
-  · simp only [hm, Bool.false_eq_true, if_false]
-    exact Dev.basicSetbuf_inv d k inp size h
-
-theorem Dev.overflow_inv (d : Dev) (k : Log) (inp : Bytes) (c : Option UInt8) (h : d.Inv k inp) :
-    (d.overflow logIf k c).1.Inv (d.overflow logIf k c).2 (inp ++ c.toList) ∧ LogStep d (d.overflow logIf k c).1 k (d.overflow logIf k c).2 := by
-  unfold Dev.overflow
-  by_cases hm : (d.isAsync && d.fullBuffering) = true
-  · simp only [hm, if_true]
-    have h' := h
-    obtain ⟨hd, hr, hp, hi⟩ := h
-    -- after the optional growth there is room for one byte
-    have hg : ∃ d1 : Dev, (if d.pos = d.vec.length then { d with vec := resize d.vec (Gen.nextSize d.vec.length) } else d) = d1 ∧
-        d1.Inv k inp ∧ d1.pos < d1.vec.length ∧ d1.final = d.final ∧ d1.eofSend = d.eofSend := by
-      by_cases hf : d.pos = d.vec.length
-      · refine ⟨_, (by rt), ?_⟩
-        rw [if_pos hf]
-        have hn := nextSize_gt d.vec.length
-        refine ⟨⟨hd, hr, ?_, ?_⟩, ?_, (by rt), (by rt)⟩
-        · show d.pos ≤ (resize d.vec (Gen.nextSize d.vec.length)).length
-          rw [resize_length]; omega
-        · show Log.bytes k ++ (resize d.vec (Gen.nextSize d.vec.length)).take d.pos = inp
-          rw [resize_take _ _ _ hp (by omega)]; exact hi
-        · show d.pos < (resize d.vec (Gen.nextSize d.vec.length)).length
-          rw [resize_length]; omega
-      · refine ⟨d, by simp [hf], h', by omega, (by rt), (by rt)⟩
-    obtain ⟨d1, hd1, hinv1, hroom, hf1, he1⟩ := hg
-    rw [hd1]
-    cases c with
-    | none =>
-      simp only [Option.toList_none, List.append_nil]
-      exact ⟨hinv1, hf1, Or.inl ⟨(by rt), he1⟩⟩
-    | some c =>
-      simp only [Option.toList_some]
-      have := Dev.pokeBlock_inv d1 k inp [c] hinv1 (by simp only [List.length_cons, List.length_nil]; omega)
-      exact ⟨this, hf1, Or.inl ⟨(by rt), he1⟩⟩
-  · simp only [hm, Bool.false_eq_true, if_false]
-    have ⟨a, bq, c1, c2⟩ := Dev.basicOverflow_inv d k inp c h
-    exact ⟨a, c1, Or.inr ⟨_, bq, c2⟩⟩
-
-theorem Dev.xsputn_inv (d : Dev) (k : Log) (inp s : Bytes) (h : d.Inv k inp) :
-    (d.xsputn logIf k s).1.Inv (d.xsputn logIf k s).2 (inp ++ s) ∧ LogStep d (d.xsputn logIf k s).1 k (d.xsputn logIf k s).2 := by
-  unfold Dev.xsputn
-  by_cases hm : (d.isAsync && d.fullBuffering) = true
-  · simp only [hm, if_true]
-    have h' := h
-    obtain ⟨hd, hr, hp, hi⟩ := h
-    have hg : ∃ d1 : Dev, (if d.vec.length - d.pos < s.length then
-          { d with vec := resize d.vec (growTo (d.pos + s.length + 1) (Gen.nextSize d.vec.length) (d.pos + s.length)) } else d) = d1 ∧
-        d1.Inv k inp ∧ d1.pos + s.length ≤ d1.vec.length ∧ d1.final = d.final ∧ d1.eofSend = d.eofSend := by
-      by_cases hf : d.vec.length - d.pos < s.length
-      · refine ⟨_, (by rt), ?_⟩
-        simp only [hf, if_true]
-        have hn := nextSize_gt d.vec.length
-        have g1 := growTo_ge_start (d.pos + s.length + 1) (Gen.nextSize d.vec.length) (d.pos + s.length)
-        have g2 := growTo_ge_min (d.pos + s.length + 1) (Gen.nextSize d.vec.length) (d.pos + s.length) (by omega) (by omega)
-        refine ⟨⟨hd, hr, ?_, ?_⟩, ?_, (by rt), (by rt)⟩
-        · show d.pos ≤ (resize d.vec _).length
-          rw [resize_length]; omega
-        · show Log.bytes k ++ (resize d.vec _).take d.pos = inp
-          rw [resize_take _ _ _ hp (by omega)]; exact hi
-        · show d.pos + s.length ≤ (resize d.vec _).length
-          rw [resize_length]; exact g2
-      · refine ⟨d, by simp [hf], h', by omega, (by rt), (by rt)⟩
-    obtain ⟨d1, hd1, hinv1, hroom, hf1, he1⟩ := hg
-    rw [hd1]
-    by_cases he : s.isEmpty = true
-    · have : s = [] := by simpa [List.isEmpty_iff] using he
-      subst this
-      simp only [List.isEmpty_nil, if_true, List.append_nil]
-      exact ⟨hinv1, hf1, Or.inl ⟨(by rt), he1⟩⟩
-    · simp only [he, Bool.false_eq_true, if_false]
-      exact ⟨Dev.pokeBlock_inv d1 k inp s hinv1 hroom, hf1, Or.inl ⟨(by rt), he1⟩⟩
-  · simp only [hm, Bool.false_eq_true, if_false]
-    have ⟨a, bq, c⟩ := Dev.basicXsputn_inv d k inp s h
-    refine ⟨a, bq, ?_⟩
-    cases c with
-    | inl c => exact Or.inl c
-    | inr c => exact Or.inr ⟨_, c.1, c.2⟩
-
-theorem Dev.sputc_inv (d : Dev) (k : Log) (inp : Bytes) (c : UInt8) (h : d.Inv k inp) :
-    (d.sputc logIf k c).1.Inv (d.sputc logIf k c).2 (inp ++ [c]) ∧ LogStep d (d.sputc logIf k c).1 k (d.sputc logIf k c).2 := by
-  unfold Dev.sputc
-  by_cases hr : d.pos < d.vec.length
-  · simp only [hr, if_true]
-    have := Dev.pokeBlock_inv d k inp [c] h (by simp only [List.length_cons, List.length_nil]; omega)
-    exact ⟨this, (by rt), Or.inl ⟨(by rt), (by rt)⟩⟩
-  · simp only [hr, if_false]
-    have := Dev.overflow_inv d k inp (some c) h
-    simpa using this
-
-theorem Dev.sync_inv (d : Dev) (k : Log) (inp : Bytes) (h : d.Inv k inp) :
-    (d.sync logIf k).1.Inv (d.sync logIf k).2 inp ∧ LogStep d (d.sync logIf k).1 k (d.sync logIf k).2 := by
-  have := Dev.overflow_inv d k inp none h
-  simpa [Dev.sync] using this
-
-theorem Dev.setFullBuffering_inv (d : Dev) (k : Log) (inp : Bytes) (v : Bool) (h : d.Inv k inp) :
-    (d.setFullBuffering logIf k v).1.Inv (d.setFullBuffering logIf k v).2 inp ∧
-    LogStep d (d.setFullBuffering logIf k v).1 k (d.setFullBuffering logIf k v).2 := by
-  unfold Dev.setFullBuffering
-  by_cases he : d.fullBuffering = v
-  · simp only [he, if_true]
-    exact ⟨h, (by rt), Or.inl ⟨(by rt), (by rt)⟩⟩
-  · simp only [he, if_false]
-    have h1 : ({ d with fullBuffering := v } : Dev).Inv k inp := h
-    cases v with
-    | true => simp only [Bool.not_true, Bool.false_eq_true, if_false]; exact ⟨h1, (by rt), Or.inl ⟨(by rt), (by rt)⟩⟩
-    | false =>
-      simp only [Bool.not_false, if_true]
-      exact Dev.setbuf_inv _ k inp _ h1
-
-end Cppcms.C03
-
-namespace Cppcms.C03
-open Cppcms
-
-/-! ### traces of device operations -/
-
-/-- what the layers above (or the application, through `std::ostream` and `response`) can do to a device -/
-inductive DevOp where
-  | put (s : Bytes)        -- sputn
-  | putc (c : UInt8)       -- sputc
-  | sync                   -- pubsync (ostream::flush)
-  | flush                  -- response::flush_async_chunk
-  | setbuf (n : Nat)       -- response::setbuf
-  | fullBuf (v : Bool)     -- response::full_asynchronous_buffering
-  deriving Repr, DecidableEq, Inhabited
-
-def DevOp.data : DevOp → Bytes
-  | .put s => s
-  | .putc c => [c]
-  | _ => []
-
-def Dev.step (x : Dev × Log) : DevOp → Dev × Log
-  | .put s => x.1.xsputn logIf x.2 s
-  | .putc c => x.1.sputc logIf x.2 c
-  | .sync => x.1.sync logIf x.2
-  | .flush => let r := x.1.flush logIf x.2; (r.1, r.2.1)
-  | .setbuf n => x.1.setbuf logIf x.2 n
-  | .fullBuf v => x.1.setFullBuffering logIf x.2 v
-
-def Dev.run (x : Dev × Log) (ops : List DevOp) : Dev × Log := ops.foldl Dev.step x
-
-/-- no eof has been announced yet -/
-def Quiet (d : Dev) (k : Log) : Prop := d.final = false ∧ d.eofSend = false ∧ Log.eofs k = 0
-
-theorem Quiet.step {d d' : Dev} {k k' : Log} (q : Quiet d k) (h : LogStep d d' k k') : Quiet d' k' := by
-  obtain ⟨q1, q2, q3⟩ := q
-  obtain ⟨h1, h2⟩ := h
-  have hf : eofFlag d = false := by simp [eofFlag, q1]
-  rcases h2 with ⟨hk, he⟩ | ⟨bs, hk, he⟩
-  · exact ⟨by rw [h1, q1], by rw [he, q2], by rw [hk, q3]⟩
-  · refine ⟨by rw [h1, q1], by rw [he, hf], ?_⟩
-    rw [hk, Log.eofs_append, hf, q3]; rfl
-
-theorem Dev.step_inv (d : Dev) (k : Log) (inp : Bytes) (op : DevOp) (h : d.Inv k inp) (q : Quiet d k) :
-    (Dev.step (d, k) op).1.Inv (Dev.step (d, k) op).2 (inp ++ op.data) ∧ Quiet (Dev.step (d, k) op).1 (Dev.step (d, k) op).2 := by
-  cases op with
-  | put s => have := Dev.xsputn_inv d k inp s h; exact ⟨this.1, q.step this.2⟩
-  | putc c => have := Dev.sputc_inv d k inp c h; exact ⟨this.1, q.step this.2⟩
-  | sync =>
-    have := Dev.sync_inv d k inp h
-    simp only [DevOp.data, List.append_nil]
-    exact ⟨this.1, q.step this.2⟩
-  | flush =>
-    have ⟨f1, f2, f3, f4, f5, f6, _⟩ := Dev.flush_inv d k inp h
-    simp only [DevOp.data, List.append_nil, Dev.step]
-    exact ⟨f1, q.step ⟨f5, Or.inr ⟨_, f3, f6⟩⟩⟩
-  | setbuf n =>
-    have := Dev.setbuf_inv d k inp n h
-    simp only [DevOp.data, List.append_nil]
-    exact ⟨this.1, q.step this.2⟩
-  | fullBuf v =>
-    have := Dev.setFullBuffering_inv d k inp v h
-    simp only [DevOp.data, List.append_nil]
-    exact ⟨this.1, q.step this.2⟩
-
-theorem Dev.run_inv : ∀ (ops : List DevOp) (d : Dev) (k : Log) (inp : Bytes), d.Inv k inp → Quiet d k →
-    (Dev.run (d, k) ops).1.Inv (Dev.run (d, k) ops).2 (inp ++ (ops.map DevOp.data).flatten) ∧
-    Quiet (Dev.run (d, k) ops).1 (Dev.run (d, k) ops).2 := by
-  intro ops
-  induction ops with
-  | nil => intro d k inp h q; simpa [Dev.run] using ⟨h, q⟩
-  | cons op ops ih =>
-    intro d k inp h q
-    have ⟨h1, q1⟩ := Dev.step_inv d k inp op h q
-    have := ih _ _ _ h1 q1
-    simp only [Dev.run, List.foldl_cons, List.map_cons, List.flatten_cons] at *
-    rw [← List.append_assoc]
-    exact this
-
-theorem Dev.open_inv (isAsync full : Bool) (n : Nat) :
-    (({ isAsync := isAsync, fullBuffering := full } : Dev).open n).Inv [] [] ∧
-    Quiet (({ isAsync := isAsync, fullBuffering := full } : Dev).open n) [] := by
-  refine ⟨⟨rfl, rfl, Nat.zero_le _, ?_⟩, rfl, rfl, rfl⟩
-  simp [Log.bytes, Dev.open, Dev.doSetp]
-
-/-- `close()` in a quiet state: the buffer is flushed with the eof mark, exactly once -/
-theorem Dev.close_spec (d : Dev) (k : Log) (inp : Bytes) (h : d.Inv k inp) (q : Quiet d k) :
-    Log.bytes (d.close logIf k).2 = inp ∧ (d.close logIf k).1.content = [] ∧ Log.eofs (d.close logIf k).2 = 1 ∧
-    (d.close logIf k).2.getLast? = some (d.content, true) ∧
-    (d.close logIf k).1.Inv (d.close logIf k).2 inp ∧ (d.close logIf k).1.final = true ∧ (d.close logIf k).1.eofSend = true := by
-  obtain ⟨q1, q2, q3⟩ := q
-  unfold Dev.close
-  rw [if_neg (by rw [q2]; exact Bool.false_ne_true)]
-  show Log.bytes ({ d with final := true }.flush logIf k).2.1 = inp ∧ ({ d with final := true }.flush logIf k).1.content = [] ∧
-    Log.eofs ({ d with final := true }.flush logIf k).2.1 = 1 ∧ ({ d with final := true }.flush logIf k).2.1.getLast? = some (d.content, true) ∧
-    ({ d with final := true }.flush logIf k).1.Inv ({ d with final := true }.flush logIf k).2.1 inp ∧
-    ({ d with final := true }.flush logIf k).1.final = true ∧ ({ d with final := true }.flush logIf k).1.eofSend = true
-  have hinv : ({ d with final := true } : Dev).Inv k inp := h
-  have ⟨f1, f2, f3, f4, f5, f6, _⟩ := Dev.flush_inv { d with final := true } k inp hinv
-  have hflag : eofFlag { d with final := true } = true := by simp [eofFlag, q2]
-  have hcont : ({ d with final := true } : Dev).content = d.content := rfl
-  rw [hflag, hcont] at f3
-  refine ⟨?_, ?_, ?_, ?_, f1, f5, by rw [f6, hflag]⟩
-  · have := f1.2.2.2
-    rw [f2] at this
-    simpa using this
-  · unfold Dev.content; rw [f2]; simp
-  · rw [f3, Log.eofs_append, q3]; rfl
-  · rw [f3]; simp
-
-/-- the `flush_async_chunk` that `async_write_response` issues after `finalize()` adds no second eof -/
-theorem Dev.flush_after_close (d : Dev) (k : Log) (inp : Bytes) (h : d.Inv k inp) (hf : d.final = true) (he : d.eofSend = true) :
-    Log.bytes (d.flush logIf k).2.1 = Log.bytes k ++ d.content ∧ Log.eofs (d.flush logIf k).2.1 = Log.eofs k := by
-  have ⟨f1, f2, f3, _⟩ := Dev.flush_inv d k inp h
-  have hflag : eofFlag d = false := by simp [eofFlag, hf, he]
-  rw [f3, hflag, Log.bytes_append, Log.eofs_append]
-  simp
-
-end Cppcms.C03
-
-namespace Cppcms.C03
-open Cppcms
-
 /-! ### traces on the upper layers -/
 
 /-- what reaches a filter layer from above: `sputn`, `sputc`, `pubsync` -/
